@@ -28,7 +28,7 @@ RULE = ('six seeded workloads on the ASan+UBSan build: (swarm) the C07 knob swar
         '(memapi) operation sequences on _fjcore.Memory: constructor knobs, add_segment/set_word/get_word/set_words '
         'with any 64-bit address, bad list items, run with any start_ip and ring length, run twice, __init__ on a live '
         'object; (devmem) device reads/writes at any 64-bit word address during callbacks; (alloc) the k-th '
-        'malloc/calloc/realloc of a run fails, k enumerated over the allocations of the fault-free run. a case is '
+        'malloc/calloc/realloc of a run fails, k enumerated over the allocations of the fault-free run; (bigline) straight-line programs of > 32768 distinct ops under the measurement loop (its per-ip table grows while the run holds pointers), and images spread over 33-72 pages (page-table growth). a case is '
         'non-trivial when native code executed at least one op or one API call failed; distinct = digest of the case')
 STATE_MEASURE = 'distinct (workload, storage mode / API op kind, outcome class) tuples'
 ASSUMPTIONS = ['gcc -O1 -fsanitize=address,undefined build of the working-tree source is representative of the shipped '
@@ -217,7 +217,46 @@ def gen_devmem(rng, tier):
     return case
 
 
+def gen_bigline(rng):
+    """a straight-line program of 33000..41000 distinct ops (each flips a scratch bit and jumps on), executed once: the measurement loop's per-ip shadow table and the page table have to grow while the run holds pointers"""
+    w = 32
+    dw = 2 * w
+    n = rng.choice([32769, 33000, 35000, 40000])
+    def slot(k):              # slot 1 (words 2,3) is the IO cell: an op there would read input
+        return 0 if k == 0 else k + 1
+    words = [0] * (2 * (n + 6))
+    scratch = (n + 4) * dw
+    for k in range(n):
+        words[2 * slot(k)] = scratch + rng.randrange(dw)
+        words[2 * slot(k) + 1] = slot(k + 1) * dw
+    last = slot(n)            # the last op halts (jumps to itself)
+    words[2 * last] = scratch
+    words[2 * last + 1] = last * dw
+    return {'kind': 'bigline', 'w': w, 'segments': [{'start': 0, 'length': len(words), 'data': words}], 'version': 1,
+            'lzma_preset': 0, 'input_bits': [], 'script': {}, 'fault': None, 'probe_words': [],
+            'n_ops': n, 'env': rng.choice([{'FLIPJUMP_MEASURE_SPECULATION': '1'},
+                                           {'FLIPJUMP_MEASURE_SPECULATION': '1', 'FLIPJUMP_NO_FLAT': '1'},
+                                           {'FLIPJUMP_NO_FLAT': '1'}, {}]),
+            'last_ops': rng.choice([None, None, 5])}
+
+
+def run_bigline(case):
+    from flipjump.interpreter import fjm_run
+    path = enginesim.image_path()
+    C.write_image(case, path)
+    exp, m = C.run_model(case, last_ops=None, probe_mode='off', max_ops=case['n_ops'] + 10, trace_limit=0)
+    cfg = {'engine': 'native', 'env': case['env'], 'last_ops': case['last_ops']}
+    obs, dev = C.run_engine(case, cfg, path, probe_mode='off')
+    v = []
+    if exp['outcome'][0] == 'term' and (obs['outcome'] != exp['outcome'] or obs['ops'] != exp['ops']):
+        v.append({'clause': 'termination', 'config': cfg, 'config_name': enginesim.cfg_name(cfg),
+                  'expected': C._j([exp['outcome'], exp['ops']]), 'observed': C._j([obs['outcome'], obs['ops']])})
+    return v, obs['ops'] or 0
+
+
 def gen(rng, index, tier):
+    if index % 150 == 77:
+        return gen_bigline(rng)
     r = index % 10
     if r in (0, 1, 2):
         case = C07.gen(rng, index, tier)
@@ -502,6 +541,14 @@ def run(case):
         faults['alloc-failure'] = [conf, fired]
         nontrivial = fired > 0
         states.add(f'alloc|{conf > 0}')
+    elif kind == 'bigline':
+        violations, steps = run_bigline(case)
+        states.add('bigline|' + ','.join(sorted(case['env'])))
+        nontrivial = True
+        if steps > 32768:
+            probes['bigline_over_32768_ops'] = 1
+            if case['env'].get('FLIPJUMP_MEASURE_SPECULATION') == '1' and not case['last_ops']:
+                probes['bigline_measured_table_growth'] = 1
     elif kind == 'raw':
         outcome, steps = run_raw(case)
         states.add(f'raw|{outcome}')
@@ -535,3 +582,9 @@ def signature(case, violation):
                if violation.get('config') else None}
     sig['workload'] = kind
     return sig
+
+
+def adequacy(tier, agg):
+    return B.adequacy(tier, agg, ['workload_swarm', 'workload_fault', 'workload_raw', 'workload_memapi', 'workload_devmem',
+                                  'workload_alloc', 'workload_bigline', 'bigline_over_32768_ops',
+                                  'bigline_measured_table_growth', 'devmem_accesses'], min_cases=2000)
